@@ -576,7 +576,8 @@ def st_header(with_name=True):
             "scaling_factors": st_fixed_field(12),
             "energy": st_fixed_field(12),
             "registry_number": st_fixed_field(6),
-            "comments": st_free_line(80),
+            # ('$$$$' at the start of any line is the record delimiter of the SD format itself)
+            "comments": st_free_line(80) if with_name else st_free_line(80).filter(lambda s: not s.startswith("$$$$")),
         }
     )
 
